@@ -19,6 +19,8 @@ def run(ctx):
     scen += charfam.seeded_small(ctx, rng, 60 if quick else 600)
     scen += charfam.seeded_flag_trees(ctx, rng, 10 if quick else 80)
     files, cells, leaves = charfam.run_scenarios(ctx, scen, "c02")
+    sf, sc_, sl = charfam.run_sequences(ctx, charfam.collision_sequences(), "c02")
+    files, cells, leaves = files + sf, cells + sc_, leaves + sl
     verdicts, decided = charfam.validate(ctx, files)
     ctx.evaluations = leaves
     ctx.nontrivial = decided
